@@ -159,7 +159,11 @@ class InlineTrans(Transformation):
             refs.extend(new_stmts[-1].walk(Reference))
 
         # Shallow copy the symbols from the routine into the table at the
-        # call site.
+        # call site. SymbolTable.merge() only resolves name clashes with the
+        # symbols of the table it is merging into, so first rename any local
+        # symbol of the routine that would otherwise shadow (and capture
+        # references to) a symbol in an outer scope of the call site.
+        self._rename_shadowing_symbols(table, routine)
         table.merge(routine_table,
                     symbols_to_skip=self._symbols_to_skip(routine_table))
 
@@ -229,6 +233,37 @@ class InlineTrans(Transformation):
             replacement = type(scope.symbol_table)()
             scope.symbol_table.detach()
             replacement.attach(scope)
+
+    def _rename_shadowing_symbols(self, table, routine):
+        '''
+        Renames those local data symbols of the routine being inlined that
+        have the same name as a symbol that is visible at the call site but
+        is declared in an outer scope (e.g. in the parent Container). Without
+        this, the merged symbol would shadow the outer one and references
+        to the latter in the calling routine would be captured.
+
+        :param table: the symbol table at the call site.
+        :type table: :py:class:`psyclone.psyir.symbols.SymbolTable`
+        :param routine: the (copy of the) routine that is being inlined.
+        :type routine: :py:class:`psyclone.psyir.nodes.Routine`
+
+        '''
+        routine_table = routine.symbol_table
+        symbols_to_skip = self._symbols_to_skip(routine_table)
+        if routine.return_symbol:
+            # The symbol holding the result of a function is renamed
+            # separately once the routine body has been inlined.
+            symbols_to_skip.append(routine.return_symbol)
+        visible = table.get_symbols()
+        for sym in list(routine_table.symbols):
+            if (sym in symbols_to_skip or not isinstance(sym, DataSymbol) or
+                    not (sym.is_automatic or sym.is_static)):
+                continue
+            key = sym.name.lower()
+            if key in visible and key not in table.symbols_dict:
+                routine_table.rename_symbol(
+                    sym, table.next_available_name(
+                        sym.name, other_table=routine_table))
 
     def _symbols_to_skip(self, table):
         '''
